@@ -154,28 +154,54 @@ def run(c, facts, tier):
     c.ob("C18.no-collision", tokfn, "argument sub-parsers carry no category label", not coll, "labels inside arguments: %s; colliding with categories: %s" % (sorted(inner_labels), sorted(coll)))
     # C18.reread
     disp = facts.fn(an.role("dispatch"))
-    inp = None
-    for nme, ty in disp.params:
-        if ty.startswith("&mut&"):
-            inp = nme
-    reread = None
-    for st in disp.body["stmts"]:
-        if st["k"] == "let" and st["init"] is not None:
-            base, chain = rx.method_chain(st["init"])
-            ms = [(m, a_) for m, a_, _ in chain]
-            if ms and ms[0][0] == "parse_next" and len(ms[0][1]) == 1 and rx.is_var(ms[0][1][0], inp):
-                reread = (st, base, ms)
+    # dispatch is evaluated on one representative of every class of (derived context, re-read outcome): the context folder is
+    # replaced by the probe state, the context error and the input are unknowns, `parse_next(input)` yields Ok("WORD") or Err
+    from .. import probe as P
+
+    word_parser = "<String as Parseable>::parse"
+    newkey = facts.fn("SyntaxContext::new").key
+
+    def run_dispatch(state, word_ok):
+        pr = P.Probe(facts, None, disp.module)
+        pr.lenient = True
+        inp = P.Opq("input")
+        rereads = []
+        pr.intercept[newkey] = lambda args: dict(state, __ty="SyntaxContext")
+
+        def parse_next(pr_, e, recv, args):
+            if len(args) == 1 and args[0] is inp:
+                r = None
+                if isinstance(recv, tuple) and recv and recv[0] == "fnref_path":
+                    r = b._resolve_fn_path(recv[1], {"__module": recv[2], "__tsubst": {}})
+                rereads.append(r[0] if r else src(e["recv"]))
+                return ("ok", "WORD") if word_ok else ("err", P.Opq("error"))
+            return NotImplemented
+
+        pr.mhooks["parse_next"] = parse_next
+        args = [inp if ty.startswith("&mut&") else P.Opq(nme or "arg") for nme, ty in disp.params]
+        out = pr.invoke(disp, None, args)
+        # the syntax error, possibly inside the wrapper variant
+        wrap = set(facts.variants("ParserError"))
+        while isinstance(out, tuple) and out and out[0] == "enum" and out[1].split("::")[-1] in wrap and out[1].split("::")[0] in ("ParserError", "Self") and len(out[2]) == 1:
+            out = out[2][0]
+        return out, rereads
+
     okr = False
     det = "no re-read of the next word found in %s" % disp.key
-    if reread:
-        st, base, ms = reread
-        env = {"__module": disp.module, "__tsubst": {}}
-        r = b._resolve_fn_path(base, env) if base["k"] == "path" else None
-        word_parser = "<String as Parseable>::parse"
-        default = ms[1] if len(ms) > 1 else None
-        dflt_ok = default is not None and default[0] in ("unwrap_or", "unwrap_or_default", "unwrap_or_else") and (default[0] == "unwrap_or_default" or any(n.get("v") == "" for n in find_all(default[1], lambda n: n.get("k") == "lit" and n.get("t") == "str")) or "String::new" in src(default[1]))
-        okr = r is not None and r[0] == word_parser and dflt_ok
-        det = "next word read by %s from `%s`, default %s" % (r[0] if r else src(base), inp, src(default[1]) if default else None)
+    reread_err = None
+    try:
+        st0 = {"test": None, "action": None, "global": None, "description": None}
+        o_ok, rr = run_dispatch(st0, True)
+        o_err, rr2 = run_dispatch(st0, False)
+        if rr and rr == rr2:
+            w_ok = o_ok[2] if isinstance(o_ok, tuple) and o_ok[0] == "enum" else None
+            w_err = o_err[2] if isinstance(o_err, tuple) and o_err[0] == "enum" else None
+            okr = rr == [word_parser] and w_ok == ["WORD"] and w_err == [""]
+            det = "next word read by %s from the input; unknown word reported as %s, as %s when nothing can be read" % (rr, w_ok, w_err)
+    except P.NoEval as ex:
+        reread_err = str(ex)
+        okr = None
+        det = "dispatch is outside the evaluated subset: %s" % ex
     c.ob("C18.reread", disp.key, "the word is re-read with the grammar's word parser, empty when missing", okr, det)
     pub = facts.fn(an.role("parse_pub"))
     innerk = an.role("parse_inner")
@@ -190,57 +216,42 @@ def run(c, facts, tier):
     # C18.total
     se = facts.enum("SyntaxError")
     tmpl = error_templates(se)
-    ms_ = find_all(disp.body, lambda n: n.get("k") == "match")
-    table_ok = len(ms_) == 1 and ms_[0]["scrut"]["k"] == "tuple" and len(ms_[0]["scrut"]["elems"]) == 4
-    fields = [src(x).split(".")[-1] for x in ms_[0]["scrut"]["elems"]] if table_ok else []
-    c.ob("C18.total", disp.key, "dispatch is one match over (test, action, global, description)", table_ok and fields == ["test", "action", "global", "description"], "scrutinee fields %s" % fields)
-    if table_ok:
-        arms = ms_[0]["arms"]
-        for cat_i, cat in enumerate(("test", "action", "global")):
+    c.ob("C18.total", disp.key, "dispatch is decided for every (test, action, global, description) class", reread_err is None, "evaluated by cases on the derived context" if reread_err is None else reread_err)
+    if reread_err is None:
+        kws = {"test": "-kwt", "action": "-kwa", "global": "-kwg"}
+        for cat in ("test", "action", "global"):
             for desc in ("S", "N"):
-                vals = ["N", "N", "N", desc]
-                vals[cat_i] = "S"
-                chosen = None
-                for arm in arms:
-                    p = arm["pat"]
-                    if p["k"] == "tuple" and len(p["elems"]) == 4 and all(pat_matches(e, v) for e, v in zip(p["elems"], vals)):
-                        chosen = arm
-                        break
-                    if rx.is_catchall(p):
-                        chosen = arm
-                        break
-                variant = None
-                kw_bound = False
-                if chosen is not None:
-                    chain, cargs = rx.ctor_chain(chosen["body"])
-                    variant = chain[-1].split("::")[-1] if chain else None
-                    # the keyword binding of this category and the re-read word are passed
-                    if chosen["pat"]["k"] == "tuple":
-                        binds = rx.pat_bindings(chosen["pat"]["elems"][cat_i])
-                        argn = [rx.var_name(x) for x in (cargs or [])]
-                        kw_bound = bool(binds) and binds[0] in argn and (rx.pat_bindings(reread[0]["pat"])[0] if reread else None) in argn
-                t = tmpl.get(variant, "")
-                ok = variant is not None and "{0}" in t and "{1}" in t and kw_bound
+                state = {"test": None, "action": None, "global": None, "description": ("some", "why") if desc == "S" else None}
+                state[cat] = ("some", kws[cat])
+                variant, t, ok, got = None, "", None, None
+                try:
+                    res = [run_dispatch(state, w_)[0] for w_ in (True, False)]
+                    got = res
+                    if all(isinstance(r_, tuple) and r_ and r_[0] == "enum" for r_ in res) and res[0][1] == res[1][1]:
+                        variant = res[0][1].split("::")[-1]
+                        t = tmpl.get(variant, "")
+                        ok = "{0}" in t and "{1}" in t and res[0][2][:2] == [kws[cat], "WORD"] and res[1][2][:2] == [kws[cat], ""]
+                    else:
+                        ok = False
+                except P.NoEval as ex:
+                    got = str(ex)
                 c.ob(
                     "C18.total",
                     disp.key,
                     "(%s, description %s)" % (cat, "present" if desc == "S" else "absent"),
                     ok,
-                    "selected variant %s with message %r; it %s" % (variant, t, "mentions keyword {0} and word {1}" if ok else "does not carry both the keyword and the word"),
+                    "selected variant %s with message %r; it %s" % (variant, t, "mentions keyword {0} and word {1}, and is given the keyword and the re-read word in these places" if ok else "does not carry both the keyword and the word: %s" % (got,)),
                     witness={"test": "-name", "action": "-print -fls", "global": "-threads"}[cat] + ("" if desc == "N" else " <bad>") if not ok else None,
                 )
         # no category: the unknown word is quoted
-        vals = ["N", "N", "N", "S"]
-        chosen = None
-        for arm in arms:
-            p = arm["pat"]
-            if rx.is_catchall(p) or (p["k"] == "tuple" and all(pat_matches(e, v) for e, v in zip(p["elems"], vals))):
-                chosen = arm
-                break
-        chain, cargs = rx.ctor_chain(chosen["body"]) if chosen else (None, None)
-        variant = chain[-1].split("::")[-1] if chain else None
-        okn = variant is not None and "{0}" in tmpl.get(variant, "") and reread is not None and [rx.var_name(x) for x in (cargs or [])] == [rx.pat_bindings(reread[0]["pat"])[0]]
-        c.ob("C18.total", disp.key, "(no category) quotes the word", okn, "variant %s, message %r" % (variant, tmpl.get(variant)))
+        okn, variant = None, None
+        try:
+            res = [run_dispatch({"test": None, "action": None, "global": None, "description": d_}, True)[0] for d_ in (None, ("some", "why"))]
+            okn = all(isinstance(r_, tuple) and r_ and r_[0] == "enum" and r_[2] == ["WORD"] and "{0}" in tmpl.get(r_[1].split("::")[-1], "") for r_ in res)
+            variant = [r_[1].split("::")[-1] if isinstance(r_, tuple) else r_ for r_ in res]
+        except P.NoEval as ex:
+            variant = str(ex)
+        c.ob("C18.total", disp.key, "(no category) quotes the word", okn, "variant %s, message %r" % (variant, [tmpl.get(v_) for v_ in variant] if isinstance(variant, list) else None))
     # C18.nonempty
     for en in ("SyntaxError", "ParserError", "GrammarError"):
         for v, t in error_templates(facts.enum(en)).items():
